@@ -225,8 +225,17 @@ def run_case(case, schedule, opts):
                 loop_nodes = [n for n in expected_nodes if '#' in n]
                 tgt = e2.bn(lp, outside_meta[e[3]]['target'])
                 stopn = e2.bn(lp, 'stop')
-                need = [n for n in loop_nodes if n.split('#', 1)[1].rstrip('0123456789') in (tgt, stopn)
-                        or n.split('#', 1)[1] in (tgt, stopn)]
+                # instances of the consumed component (its replicas when it is replicated) and of the condition - by exact
+                # name: a sibling called stop2 / stop10 is neither
+                repl_of = {n_: r_ for (n_, _, _, r_, _) in e2.body_components(lp)}
+
+                def is_instance_of(node, comp):
+                    b = node.split('#', 1)[1]
+                    if b == comp:
+                        return True
+                    return bool(repl_of.get(comp)) and b.startswith(comp) and b[len(comp):].isdigit()
+
+                need = [n for n in loop_nodes if is_instance_of(n, tgt) or is_instance_of(n, stopn)]
                 missing = [n for n in need if n not in done]
                 if missing:
                     V('launch:outside-consumer-before-loop-terminated', {'consumer': e[3], 'not_final': missing[:5], 'k': k_target})
